@@ -418,6 +418,8 @@ class FormatChecker:
         pats = V.patterns[v.key()]
         vs = x_str(v)
         r.count('states')
+        if cls not in ('normal', 'finite'):
+            r.count('nontrivial')
         ords = {}
         for form in FORMS:
             if (v.isnan or v.isinf) and form > 1:
@@ -426,8 +428,8 @@ class FormatChecker:
             x = mk_float(v, form)
             xs = fl_str(x)
             r.count('evaluations')
-            if form > 0 or cls not in ('normal', 'finite'):
-                r.count('nontrivial')
+            if form > 0:
+                r.count('unnormalised_operand_forms')
             # membership, both entry points
             for name, fn in (('representable_in', lambda: self.fmt.representable_in(x)),
                              ('representable_under', lambda: ctx.representable_under(x))):
@@ -527,7 +529,7 @@ class FormatChecker:
         for end, edge, step in (('top', V.up(v.q) is None, 1), ('bottom', V.down(v.q) is None, -1)):
             if not edge or (v.q == 0 and v.s and V.has_pzero):
                 continue
-            r.count('nontrivial')
+            r.count('end_of_range_probes')
             for infval in (False, True):
                 r.count('transitions')
                 try:
@@ -942,10 +944,11 @@ class Check(BaseCheck):
     rule = ('every configuration of the EFloat / IEEE / Fixed / SMFixed / Exp constructor boxes up to the width bound; '
             'for each accepted one every bit pattern, every value of the decoded set in operand forms c<<0,1,3, '
             'non-members derived from the sorted set, and the min/max queries; all binary16 patterns; a structured '
-            'subset of binary32/64.  nontrivial = a point off the plain normal-number path: NaN/inf/zero codes, '
-            'subnormals, the top two binades (where special codes eat into the range), extreme and least-magnitude '
-            'values, sign-bit-set fixed-point words, unnormalised operand forms, non-members, end-of-range steps, '
-            'rejected configurations')
+            'subset of binary32/64.  nontrivial = a point (pattern / value / non-member / query / configuration) off the '
+            'plain normal-number path: NaN/inf/zero codes, subnormals, the top two binades (where special codes eat '
+            'into the range), extreme and least-magnitude values, sign-bit-set or first/last fixed-point and '
+            'exponential words, every non-member, every query set, every rejected configuration; operand forms and '
+            'end-of-range probes are counted separately')
     assumptions = [
         'the EFloat layout is sign|exponent|mantissa with bias 2^(es-1)-1-eoffset (bias -eoffset for a zero-width '
         'exponent field) and the special codes of the EFloatNanKind docstrings; infinity, when enabled, is '
